@@ -621,6 +621,7 @@ fn cond_to_node(c: &Cond, ty: &str) -> ReteUlNode {
                 Val::I(i) => i.to_string(),
                 Val::S(s) => s.clone(),
                 Val::B(b) => b.to_string(),
+                Val::Nan => "NaN".to_string(),
                 Val::X(s) => s.clone(),
             },
         }),
@@ -639,6 +640,7 @@ fn apply_acts_flat(acts: &[Act], facts: &mut HashMap<String, String>) {
                     Val::I(i) => i.to_string(),
                     Val::S(s) => s.clone(),
                     Val::B(b) => b.to_string(),
+                    Val::Nan => "NaN".to_string(),
                     Val::X(s) => s.clone(),
                 };
                 facts.insert(format!("{}.{}", ty, field), v);
@@ -665,6 +667,7 @@ fn flat_facts(c: &TermCase) -> HashMap<String, String> {
                 Val::I(i) => i.to_string(),
                 Val::S(s) => s.clone(),
                 Val::B(b) => b.to_string(),
+                Val::Nan => "NaN".to_string(),
                 Val::X(s) => s.clone(),
             };
             m.insert(format!("{}.{}", t, k), s);
